@@ -57,7 +57,9 @@ def _gen_cfg(S, want_rt=None):
         custom = [[S.pick(['[ST]', 'K', '[DE]', 'P', 'A', '[KR]', 'M', 'DE', 'AA', 'K$', '^P', 'P[ST]', '[KR][KR]', 'E',
                            '[STED]', 'L.', '.K',
                            # classes that match residues they do not spell out
-                           '[^P]', '[A-G]', '[^KR]$', '(?<=K).']),
+                           '[^P]', '[A-G]', '[^KR]$', '(?<=K).',
+                           # one capturing group that may be empty or not take part in a match
+                           'S(P)?', '(S)|T', '(K)?R', 'E(D)*']),
                    S.pick([-18.0, -17.5, -98.0, -10.25, 5.5, -18.01056, -17.02655, -18.01056])]
                   for _ in range(S.randint(1, 2))]
         if len(custom) == 2 and custom[0][1] == custom[1][1]:
